@@ -140,6 +140,14 @@ def build_synth(case):
     df['period_consistency'] = ref.ref_period_consistency(df['period'].values, 'both')
     df['monotonicity'] = np.array(case['mono'], dtype=float)
     df['is_burst'] = ref.ref_labels_cycles(df, case['th'])
+    order = case.get('columns', 'natural')
+    if order == 'sorted':
+        df = df[sorted(df.columns)]
+    elif order == 'reversed':
+        df = df[list(df.columns)[::-1]]
+    elif order == 'consistency-last':
+        cols = [c for c in df.columns if c != 'amp_consistency'] + ['amp_consistency']
+        df = df[cols]
     if case['offset_index'] == 'repeated':
         h = (n + 1) // 2
         df.index = pd.Index(list(range(h)) + list(range(n - h)))
@@ -150,7 +158,7 @@ def build_synth(case):
 
 def check_synth(case, rec):
     df = build_synth(case)
-    rec.label('center:' + case['center'], 'index:offset' if case['offset_index'] else 'index:range')
+    rec.label('center:' + case['center'], 'index:offset' if case['offset_index'] else 'index:range', 'columns:' + case.get('columns', 'natural'))
     core(df, reduced(case['th'], case['r']), case['r'] == 0, rec)
 
 
@@ -185,7 +193,8 @@ def strat_synth(draw, tier):
           'monotonicity_threshold': draw(st.sampled_from([0.4, 0.8])),
           'min_n_cycles': draw(st.sampled_from([1, 1, 2, 3]))}
     return {'rise': rise, 'decay': decay, 'period': period, 'mono': mono, 'th': th, 'center': draw(st.sampled_from(['peak', 'trough'])),
-            'r': draw(st.sampled_from([0, 0, 0.05, 0.1, 0.3])), 'offset_index': draw(st.sampled_from([0, 0, 0, 1, 5, 100, 'repeated']))}
+            'r': draw(st.sampled_from([0, 0, 0.05, 0.1, 0.3])), 'offset_index': draw(st.sampled_from([0, 0, 0, 1, 5, 100, 'repeated'])),
+            'columns': draw(st.sampled_from(['natural', 'natural', 'sorted', 'reversed', 'consistency-last']))}
 
 
 PARTS = [
